@@ -241,6 +241,28 @@ Theorem stack_chunk_invariant_enc_edi : forall cp fuelD crlf N buflen delim esc 
   edi_tokens_rd _ (dec_rd cp 4096 source io_read fuelD) crlf N buflen delim esc gasB gas fuel (dec_init, mkSrc cs' wl' t) = Ok res.
 Proof. intros. eapply stack_chunk_invariant_enc_edi; eassumption. Qed.
 
+(* Known finding F30 (JSON error texts carry a line number counted over the decoder's read-ahead):
+   such a counter is not chunk-invariant.  Replayed from replays/corpus/C09/f30_json_line_number.json;
+   the main stream masks exactly that number for JSON (guard json_line_masked). *)
+Theorem line_count_readahead_refuted :
+  exists cs cs' wl t, concat cs = concat cs' /\ runs_ok cs = true /\ runs_ok cs' = true /\
+    fst (snd (lcr_read (1, mkSrc cs wl t) 512)) <> fst (snd (lcr_read (1, mkSrc cs' wl t) 512)).
+Proof. exact line_count_readahead_refuted. Qed.
+
+(* The full statement that stack_chunk_invariant_partial left open (scanner above, decoder below):
+   for utf-8 both complete stacks at once; the charmap versions are the two _enc_ theorems above. *)
+Theorem stack_chunk_invariant : forall crlf N buflen delim esc gasB gas fuel cs cs' wl wl' t rl rt,
+  4 <= N -> buflen <= MaxScanTokenSize -> full_rune delim = true ->
+  concat cs = concat cs' -> runs_ok cs = true -> runs_ok cs' = true ->
+  12 * (N + weight cs) + 6 < gasB -> 12 * (N + weight cs) + 6 < gas ->
+  12 * (N + weight cs') + 6 < gasB -> 12 * (N + weight cs') + 6 < gas ->
+  a_bom_lines N fuel (concat cs, t) = Ok rl ->
+  a_edi_tokens crlf delim esc fuel (concat cs, t) = Ok rt ->
+  (bom_lines N gas fuel (mkSrc cs wl t) = Ok rl /\ bom_lines N gas fuel (mkSrc cs' wl' t) = Ok rl) /\
+  (edi_tokens_rd source io_read crlf N buflen delim esc gasB gas fuel (mkSrc cs wl t) = Ok rt /\
+   edi_tokens_rd source io_read crlf N buflen delim esc gasB gas fuel (mkSrc cs' wl' t) = Ok rt).
+Proof. exact stack_chunk_invariant. Qed.
+
 (* Non-vacuity of the complete-stack theorems: a two-byte code page, BOM (as decoded), CR LF,
    a release character before a delimiter, cuts inside all of them, a 4-byte scanner buffer. *)
 Definition demo_cp (c : byte) : bytes := if (b2n c <? 128)%N then [c] else [xc3; c].
